@@ -207,7 +207,9 @@ fn dec(s: &str) -> Vec<Op> {
 
 pub fn run(seed: u64, replay: Option<String>, heap_only: bool) -> Outcome {
     if let Some(r) = replay {
-        let c = exec(&dec(&r), heap_only).map(|(o, e)| Cex { input: r.clone(), observed: o, expected: e });
+        // node priorities are drawn from a process-wide generator: replay the history repeatedly (other priorities each time)
+        let ops = dec(&r);
+        let c = (0..500).find_map(|_| exec(&ops, heap_only)).map(|(o, e)| Cex { input: r.clone(), observed: o, expected: e });
         return Outcome { cex: c, cases: 1 };
     }
     let mut rng = Lcg(seed ^ 0xc03);
@@ -225,23 +227,26 @@ pub fn run(seed: u64, replay: Option<String>, heap_only: bool) -> Outcome {
             });
         }
         cases += 1;
-        if exec(&ops, heap_only).is_some() {
+        if let Some(first) = exec(&ops, heap_only) {
+            // priorities come from a process-wide generator, so a re-run of the same history sees other priorities:
+            // shrink only while a re-run (a few attempts) still fails, and keep the last observed failure
             let mut best = ops.clone();
+            let mut last = first;
             let mut changed = true;
             while changed {
                 changed = false;
                 for i in 0..best.len() {
                     let mut t = best.clone();
                     t.remove(i);
-                    if exec(&t, heap_only).is_some() {
+                    if let Some(f) = (0..20).find_map(|_| exec(&t, heap_only)) {
                         best = t;
+                        last = f;
                         changed = true;
                         break;
                     }
                 }
             }
-            let (o, e) = exec(&best, heap_only).unwrap();
-            return Outcome { cex: Some(Cex { input: enc(&best), observed: o, expected: e }), cases };
+            return Outcome { cex: Some(Cex { input: enc(&best), observed: last.0, expected: last.1 }), cases };
         }
     }
     Outcome { cex: None, cases }
